@@ -232,7 +232,7 @@ def install(ctx, repo, probes):
 
 
 def run_case(ctx, repo, case):
-    repo.set_mode(case["mode"])
+    repo.set_mode(case["mode"], case)
     try:
         p = repo.tp(case["p"])
         d = repo.dur(case["d"])
